@@ -645,7 +645,7 @@ func c06Limits(c *Ctx, idx int) {
 func init() {
 	Register(&Property{
 		ID:            "C06",
-		Rule:          "histories of 3-8 Expression.Search calls of one compiled expression over 2-4 documents with repeats (d1 dx d1 dy ...); expressions biased to functions and selectors that build or reorder containers (sort, sort_by, reverse, merge, group_by, from_items, to_array, [*], slices, flatten, multi-select, filters, literals returned by reference and then sorted/reversed/merged); plus a directed list (every ordering/reversing/merging function x every way of passing an array of the document or a literal without a copy: x, x[*], x[:], x[], x[?`true`], to_array(x), (x), x | @, ...); every slice of every document carries 1-3 spare capacity slots filled with canaries; per call: outcome = fresh one-shot Search of the same text on a deep copy, deep snapshot of every document unchanged (dynamic types, values, lengths, capacity tails, container identities), AST fingerprint of the compiled expression unchanged (hook), every earlier result still equal to the snapshot taken when it was returned; edited-in-place stream: the caller edits its document in place between calls (leaf replaced, elements/values swapped, member added or removed; container identities kept) and both Expression.Search and one-shot Search on those same containers must equal a fresh Search on a deep copy of the current content; limits stream: for 8 nesting/chain shapes the largest expression that succeeds is found by bisection, then calls that fail on the documented depth limit are made, after which that expression (compiled before, compiled afresh, one-shot) must still give the same outcome; foreign-containers stream: documents whose plain containers hold typed slices/maps, arrays, structs and pointers keep the same dynamic type and value at every position after every call; MustCompile panics exactly when Compile fails (corpus expressions, mutants, and members/non-members of 1 KB .. 1 MiB, for which Search, Compile+Search and MustCompile+Search must give one outcome); non-trivial = a history that returned a non-empty container; distinct by (expression, first document); the limits stream also places chains just over and just under the limit in 10 operand positions that the document never reaches and requires Search, Compile+Search and MustCompile+Search to agree",
+		Rule:          "histories of 3-8 Expression.Search calls of one compiled expression over 2-4 documents with repeats (d1 dx d1 dy ...); expressions biased to functions and selectors that build or reorder containers (sort, sort_by, reverse, merge, group_by, from_items, to_array, [*], slices, flatten, multi-select, filters, literals returned by reference and then sorted/reversed/merged); plus a directed list (every ordering/reversing/merging function x every way of passing an array of the document or a literal without a copy: x, x[*], x[:], x[], x[?`true`], to_array(x), (x), x | @, ...); every slice of every document carries 1-3 spare capacity slots filled with canaries; per call: outcome = fresh one-shot Search of the same text on a deep copy, deep snapshot of every document unchanged (dynamic types, values, lengths, capacity tails, container identities), AST fingerprint of the compiled expression unchanged (hook), every earlier result still equal to the snapshot taken when it was returned; edited-in-place stream: the caller edits its document in place between calls (leaf replaced, elements/values swapped, member added or removed; container identities kept) and both Expression.Search and one-shot Search on those same containers must equal a fresh Search on a deep copy of the current content; limits stream: for 8 nesting/chain shapes the largest expression that succeeds is found by bisection, then calls that fail on the documented depth limit are made, after which that expression (compiled before, compiled afresh, one-shot) must still give the same outcome; foreign-containers stream: documents whose plain containers hold typed slices/maps, arrays, structs and pointers keep the same dynamic type and value at every position after every call; MustCompile panics exactly when Compile fails (corpus expressions, mutants, and members/non-members of 1 KB .. 1 MiB, for which Search, Compile+Search and MustCompile+Search must give one outcome); non-trivial = a history that returned a non-empty container; distinct by (expression, first document); the limits stream also places chains just over and just under the limit in 10 operand positions that the document never reaches and requires Search, Compile+Search and MustCompile+Search to agree; the directed list also hands arrays to element-wise consumers (map with non-identity bodies, zip, join, multi-select projections), covers arrays of 700 and 1300 numbers with and without a late offender, and hands objects (empty and not) to merge through 15 wraps",
 		MinNontrivial: 1000,
 		Streams: []Stream{
 			{Name: "histories", N: func(c *Ctx) int { return tierN(c, 8000, 2000000) }, Run: c06History},
